@@ -626,39 +626,28 @@ func c06DrawProgress(c *Ctx, p *Prog) {
 		}
 	})
 	c.Check(gated, "C06-R8", "draw:only-while-running", p.pos(draw.Pos()), "draw() does nothing unless t.running "+where)
-	// (b) the step of the column loop: x's back-edge value is x + (width-1) + 1 with width >= 1
+	// (b) the column loop advances by at least one cell per iteration, however the step is written
+	// (x += width-1 with x++, x += width, a floor applied to the width first or in the step …): a
+	// lower bound of (next x) - x over every way round the loop
 	okStep, detail := false, "column loop not recognised"
 	for _, call := range callsIn(draw, func(n string, _ *ssa.CallCommon) bool { return strings.HasSuffix(n, "tScreen).drawCell") }) {
-		w, ok := call.(ssa.Value)
-		if !ok {
-			continue
-		}
-		// the value added to x: (phi(width, 1) - 1)
-		for _, r := range referrers(w) {
-			switch x := r.(type) {
-			case *ssa.BinOp:
-				if x.Op == token.SUB {
-					detail = "x advances by the raw width reported by drawCell (0 for a cell outside the buffer)"
+		for h, body := range loopsOf(draw) {
+			if !body[call.Block()] {
+				continue
+			}
+			for _, in := range h.Instrs {
+				phi, isPhi := in.(*ssa.Phi)
+				if !isPhi || callCommon(call).Args[1] != ssa.Value(phi) {
+					continue
 				}
-			case *ssa.Phi:
-				one := false
-				for _, e := range x.Edges {
-					if k, isK := constInt(e); isK && k == 1 {
-						one = true
-					}
-				}
-				floor := false
-				for i, e := range x.Edges {
-					if k, isK := constInt(e); isK && k == 1 {
-						for _, a := range guardsAt(x.Block().Preds[i]) {
-							if (a.Op == "<" && a.R == "1") || (a.Op == "<=" && a.R == "0") {
-								floor = true
-							}
-						}
-					}
-				}
-				if one && floor {
-					okStep, detail = true, "the width is raised to 1 before the column index advances by it"
+				lb, okLB := loopStepLowerBound(phi, h, body)
+				switch {
+				case !okLB:
+					detail = "the step of the column index could not be bounded"
+				case lb >= 1:
+					okStep, detail = true, fmt.Sprintf("the column index grows by at least %d on every way round the loop (a width below 1 is raised first)", lb)
+				default:
+					detail = fmt.Sprintf("the column index may advance by %d: a cell that reports width 0 (outside the buffer) is never left", lb)
 				}
 			}
 		}
